@@ -16,14 +16,14 @@ PYTHONPATH=$WT /venv/bin/python $D > $OUT/demo_without.log 2>&1; DN=$?
 echo "tests(with patch): $T | demo with patch rc=$DW | demo without rc=$DN"
 cp $P $OUT/patch.diff; cp $D $OUT/demo.py
 RES=""
-cd /repo && git apply $P || { echo "patch does not apply to /repo"; exit 2; }
+cd /repo && { git apply $P 2>/dev/null || git apply --3way $P; } || { echo "patch does not apply to /repo"; git -C /repo reset -q --hard HEAD; exit 2; }
 for PID in "$@"; do
   cd /verif && ./check $PID quick > $OUT/check_$PID.log 2>&1; RC=$?
   V=$(grep -c '^VIOLATION' $OUT/check_$PID.log)
   echo "  check $PID: rc=$RC violations=$V $(grep -m1 'what:' $OUT/check_$PID.log | cut -c1-160)"
   RES="$RES $PID:rc=$RC"
 done
-cd /repo && git checkout -q -- . && git status --short | head -3
+cd /repo && git reset -q --hard HEAD && git status --short | head -3
 python3 - "$WT/mutant/meta$K.json" "$OUT/meta.json" "$T" "$DW" "$DN" "$RES" <<'PY'
 import json,sys
 src,dst,t,dw,dn,res=sys.argv[1:7]
